@@ -192,6 +192,9 @@ def true_value(d, maxit=80, tol=1e-7):
 
 
 def run(ctx):
+    # tie: the row layout the exactness theorems speak about (alpha per row and scenario, beta per row and expectation event)
+    C.run_difftest(ctx, 'test_dro_rows.py', ctx.n(30, 600), 'dro.Model.dro_to_roc (first-stage fragment and second-stage robust rows of an expectation constraint)')
+    C.run_difftest(ctx, 'test_mix_support.py', ctx.n(40, 800), 'Ambiguity.mix_support(primal=True)')
     # (a) general models: reported optimum vs the independent inf-sup value, and tightness at the solution
     for k in range(ctx.n(60, 1000)):
         r, seed = G.sub_rng(ctx.rng)
@@ -242,6 +245,116 @@ def run(ctx):
             ctx.hit('single-scenario-differs-from-ro', {"dro": float(val), "ro": float(vro)}, {"desc": d})
         else:
             ctx.count('single:agree')
+    # (d) array-valued expectation constraints and entries taken after E(): closed-form inf-sup values
+    for k in range(ctx.n(30, 500)):
+        r, seed = G.sub_rng(ctx.rng)
+        exprows_one(ctx, exprows_desc(r))
+
+
+def exprows_desc(r):
+    """vector-valued expectation constraints / entries taken after E(): descriptors of two closed-form families"""
+    S = int(r.integers(1, 4)); nz = int(r.integers(1, 3)); k = int(r.integers(2, 4))
+    kind = 'vecE' if r.random() < 0.55 else 'saaE'
+    d = {'kind': kind, 'S': S, 'nz': nz, 'k': k, 'spell': int(r.integers(0, 3))}
+    if kind == 'vecE':
+        lo = [D.rint(r, -3, 0, nz) for _ in range(S)]; hi = [lo[s] + D.rint(r, 1, 4, nz) for s in range(S)]
+        p = np.ones(S) / S
+        mid = sum(p[s] * (lo[s] + hi[s]) / 2 for s in range(S)); w = sum(p[s] * (hi[s] - lo[s]) for s in range(S)) / 8
+        Cm = D.rint(r, -2, 2, (k, nz))
+        Cm[0] = np.abs(Cm[0]) + (Cm[0] == 0); Cm[1] = -Cm[0]          # rows of opposite directions need different multipliers
+        d.update({'lo': [v.tolist() for v in lo], 'hi': [v.tolist() for v in hi], 'mlo': (mid - w).tolist(), 'mhi': (mid + w).tolist(),
+                  'C': Cm.tolist()})
+        d['spell'] = d['spell'] % 2        # entries of a random-coefficient expectation cannot be taken after E() (TypeError at st(): loud)
+    else:
+        d.update({'zhat': D.rint(r, 1, 4, S).tolist(), 'rhs': [float(v) for v in r.choice([0.5, 1.0, 1.5], k)],
+                  'cost': D.rint(r, 1, 3, k).tolist()})
+    return d
+
+
+def exprows_build(d):
+    from rsome import dro, E
+    S, k = d['S'], d['k']
+    m = dro.Model(S)
+    if d['kind'] == 'vecE':
+        z = m.rvar(d['nz']); x = m.dvar(k)
+        fs = m.ambiguity()
+        for s in range(S):
+            fs[s].suppset(z >= np.array(d['lo'][s]), z <= np.array(d['hi'][s]))
+        fs.exptset(E(z) >= np.array(d['mlo']), E(z) <= np.array(d['mhi']))
+        fs.probset(m.p == 1 / S)
+        m.minsup(x.sum(), fs)
+        Cm = np.array(d['C'])
+        if d['spell'] == 0:
+            m.st(E(Cm @ z - x) <= 0)                                   # all rows in one array constraint
+        else:
+            for i in range(k):
+                m.st(E(Cm[i] @ z - x[i]) <= 0)                         # row by row
+        m.st(x <= 100)
+    else:
+        z = m.rvar(); y = m.dvar(k)
+        for s in range(S):
+            y.adapt(s)
+        fs = m.ambiguity()
+        for s in range(S):
+            fs[s].suppset(z == d['zhat'][s])
+        fs.probset(m.p == 1 / S)
+        cost = np.array(d['cost'])
+        m.minsup(E(z * y[0] + cost[1:] @ y[1:]), fs)
+        if d['spell'] == 0:
+            m.st(E(y) >= np.array(d['rhs']))
+        elif d['spell'] == 1:
+            for i in range(k):
+                m.st(E(y[i]) >= d['rhs'][i])
+        else:
+            ey = E(y)
+            m.st(ey[0] >= d['rhs'][0], ey[1:] >= np.array(d['rhs'][1:]))
+        m.st(y >= 0, y <= 2)
+    return m
+
+
+def exprows_truth(d):
+    from scipy.optimize import linprog
+    S, k = d['S'], d['k']
+    if d['kind'] == 'vecE':
+        nz = d['nz']; p = np.ones(S) / S; tot = 0.0
+        A = np.hstack([p[s] * np.eye(nz) for s in range(S)])
+        for i in range(k):
+            c = np.concatenate([p[s] * np.array(d['C'][i]) for s in range(S)])
+            res = linprog(-c, A_ub=np.vstack([A, -A]), b_ub=np.concatenate([d['mhi'], -np.array(d['mlo'])]),
+                          bounds=[(d['lo'][s][j], d['hi'][s][j]) for s in range(S) for j in range(nz)])
+            if res.status != 0:
+                return None
+            tot += -res.fun                                            # x_i = sup_P E[C_i z]
+        return tot
+    p = 1.0 / S
+    c = np.concatenate([[p * d['zhat'][s]] + [p * v for v in d['cost'][1:]] for s in range(S)])
+    A = np.zeros((k, S * k))
+    for i in range(k):
+        for s in range(S):
+            A[i, s * k + i] = -p
+    res = linprog(c, A_ub=A, b_ub=-np.array(d['rhs']), bounds=[(0, 2)] * (S * k))
+    return float(res.fun) if res.status == 0 else None
+
+
+def exprows_one(ctx, d):
+    ctx.search_cases += 1; ctx.evaluations += 1
+    try:
+        with C.quiet():
+            m = exprows_build(d)
+        val = C.solve_model(m)
+    except C.SkipCase:
+        ctx.count('exprows:skipped'); return
+    except Exception as ex:
+        ctx.hit('expectation-rows-not-compiled', {"error": type(ex).__name__, "message": str(ex)[:200]}, {"exprows": d}); return
+    tv = exprows_truth(d)
+    if tv is None:
+        ctx.count('exprows:lp-failed'); return
+    if abs(tv - val) > 1e-5 * (1 + abs(tv)):
+        ctx.hit('expectation-rows-inexact:' + ('conservative' if val > tv else 'optimistic'),
+                {"reported": float(val), "closed_form_inf_sup": float(tv), "spelling": ['array', 'row by row', 'entries after E()'][d['spell']]},
+                {"exprows": d})
+    else:
+        ctx.count('exprows:%s:spell%d:exact' % (d['kind'], d['spell']))
 
 
 def solve_as_ro(d):
@@ -268,6 +381,12 @@ def solve_as_ro(d):
 
 
 def replay(rp):
+    if 'exprows' in rp['case']:
+        d = rp['case']['exprows']
+        with C.quiet():
+            m = exprows_build(d)
+        val = C.solve_model(m); tv = exprows_truth(d)
+        return {"reported": float(val), "closed_form_inf_sup": tv, "fails": tv is not None and abs(tv - val) > 1e-5 * (1 + abs(tv))}
     d = rp['case']['desc']
     with C.quiet():
         m, h = D.build(d)
